@@ -105,8 +105,8 @@ type site struct{ target, syscall string }
 
 var sites = []site{{"src", "newfstatat"}, {"src", "openat"}, {"src", "fstat"}, {"src", "read"}, {"src", "close"}, {"dst", "openat"}, {"dst", "write"}, {"dst", "write"}, {"dst", "close"}}
 
-var allSrcKinds = []string{"file", "missing", "dir", "mode000", "symlink_ok", "dangling", "loop", "spacename", "nonascii_name", "longname", "same_as_dst", "emptyarg", "fifo", "stdin", "relative", "dotslash", "barename", "dotdot_via_symlink", "other_readable", "parent_is_file", "trailing_slash"}
-var allDstKinds = []string{"absent", "empty", "shorter", "equal", "longer", "old_image", "ro_file", "ro_dir", "parent_missing", "parent_is_file", "is_dir", "symlink_file", "dangling_symlink", "dev_full", "relative", "dotdot", "longname", "emptyarg", "dev_null", "trailing_slash", "dir_no_search", "hardlink_to_src", "symlink_to_src", "barename", "rw_file_in_ro_dir", "dotdot_via_symlink", "other_writable", "symlink_loop", "fifo", "image_with_tail", "image_prefix", "same_image"}
+var allSrcKinds = []string{"file", "missing", "dir", "mode000", "symlink_ok", "dangling", "loop", "spacename", "nonascii_name", "longname", "same_as_dst", "emptyarg", "fifo", "stdin", "relative", "dotslash", "barename", "dotdot_via_symlink", "other_readable", "parent_is_file", "trailing_slash", "socket"}
+var allDstKinds = []string{"absent", "empty", "shorter", "equal", "longer", "old_image", "ro_file", "ro_dir", "parent_missing", "parent_is_file", "is_dir", "symlink_file", "dangling_symlink", "dev_full", "relative", "dotdot", "longname", "emptyarg", "dev_null", "trailing_slash", "dir_no_search", "hardlink_to_src", "symlink_to_src", "barename", "rw_file_in_ro_dir", "dotdot_via_symlink", "other_writable", "symlink_loop", "fifo", "image_with_tail", "image_prefix", "same_image", "socket"}
 var allShapes = []string{"src-dst", "src-dst-lst", "none", "src", "four", "d-src-dst", "d-only", "v", "help", "badflag", "src-dst-dashlst", "src-dst-v", "d-src"}
 var allLstKinds = []string{"ok", "parent_missing", "same_as_dst", "existing", "same_as_src", "is_dir", "dev_full", "symlink_to_dst", "symlink_to_src", "ro_existing"}
 
@@ -314,7 +314,7 @@ func (c *c19Ctx) genScenario(seed uint64, progs []*c19Prog) *Scenario {
 	if s.Shape == "src-dst-lst" || s.Shape == "four" {
 		s.LstKind = pick(r, []string{"ok", "ok", "ok", "parent_missing", "same_as_dst", "existing", "same_as_src", "is_dir", "dev_full", "symlink_to_dst", "symlink_to_src", "ro_existing"})
 	}
-	srcKinds := []string{"file", "missing", "dir", "mode000", "symlink_ok", "dangling", "loop", "spacename", "nonascii_name", "longname", "same_as_dst", "emptyarg", "fifo", "stdin", "relative", "dotslash", "barename", "dotdot_via_symlink", "other_readable", "parent_is_file", "trailing_slash"}
+	srcKinds := []string{"file", "missing", "dir", "mode000", "symlink_ok", "dangling", "loop", "spacename", "nonascii_name", "longname", "same_as_dst", "emptyarg", "fifo", "stdin", "relative", "dotslash", "barename", "dotdot_via_symlink", "other_readable", "parent_is_file", "trailing_slash", "socket"}
 	s.SrcKind = srcKinds[r.weighted([]int{70, 3, 2, 2, 2, 1, 1, 2, 2, 1, 2, 1, 3, 3, 2, 2, 5, 2, 2, 1, 1})]
 	if r.Chance(1, 12) {
 		s.ArgPrefix = pick(r, []string{"--", "--", "-d=false", "-d=false --", "--d=false"})
@@ -326,7 +326,7 @@ func (c *c19Ctx) genScenario(seed uint64, progs []*c19Prog) *Scenario {
 		s.Break = 1 + r.Intn(7)
 		s.BreakLine = r.Intn(len(s.Header) + len(s.Body))
 	}
-	dstKinds := []string{"absent", "empty", "shorter", "equal", "longer", "old_image", "ro_file", "ro_dir", "parent_missing", "parent_is_file", "is_dir", "symlink_file", "dangling_symlink", "dev_full", "relative", "dotdot", "longname", "emptyarg", "dev_null", "trailing_slash", "dir_no_search", "hardlink_to_src", "symlink_to_src", "barename", "rw_file_in_ro_dir", "dotdot_via_symlink", "other_writable", "symlink_loop", "fifo", "image_with_tail", "image_prefix", "same_image"}
+	dstKinds := []string{"absent", "empty", "shorter", "equal", "longer", "old_image", "ro_file", "ro_dir", "parent_missing", "parent_is_file", "is_dir", "symlink_file", "dangling_symlink", "dev_full", "relative", "dotdot", "longname", "emptyarg", "dev_null", "trailing_slash", "dir_no_search", "hardlink_to_src", "symlink_to_src", "barename", "rw_file_in_ro_dir", "dotdot_via_symlink", "other_writable", "symlink_loop", "fifo", "image_with_tail", "image_prefix", "same_image", "socket"}
 	s.DstKind = dstKinds[r.weighted([]int{35, 4, 8, 5, 10, 6, 3, 3, 3, 2, 3, 4, 3, 3, 4, 3, 1, 1, 2, 2, 2, 2, 2, 4, 3, 3, 2, 2, 4, 6, 3, 3})]
 	if (s.DstKind == "hardlink_to_src" || s.DstKind == "symlink_to_src") && s.SrcKind != "file" {
 		s.DstKind = "absent"
@@ -335,6 +335,15 @@ func (c *c19Ctx) genScenario(seed uint64, progs []*c19Prog) *Scenario {
 		s.DstKind = "absent"
 	}
 	s.DstPrefillSeed = r.U64()
+	// socket nodes take a share of the directory cases (derived from a value already drawn, so that
+	// every other scenario of a seed stays what it was): open(2) fails with ENXIO, an errno that
+	// an errors.Is(ErrNotExist/ErrPermission) style classification does not know
+	if s.DstKind == "is_dir" && s.DstPrefillSeed%3 == 0 {
+		s.DstKind = "socket"
+	}
+	if s.SrcKind == "dir" && s.DstPrefillSeed%3 == 1 {
+		s.SrcKind = "socket"
+	}
 	if r.Chance(1, 3) {
 		s.Env = drawProcEnv(r, false)
 	}
